@@ -27,7 +27,8 @@ RULE = ('histories of 50-400 Deque calls (append/appendleft/extend/extendleft/po
 DISTINCT = ('cells', 'schedules')
 REQUIRED = ('calls_judged', 'file_backed_values', 'reopen_events', 'pickle_events', 'copy_events', 'fanout_deques',
             'django_deques', 'maxlen_trims', 'size_limit_squeezes', 'schedules_checked', 'free_runs',
-            'exceptions_matched', 'extends_from_failing_iterables')
+            'exceptions_matched', 'extends_from_failing_iterables', 'blocks_left_by_KeyboardInterrupt',
+            'blocks_left_by_GeneratorExit', 'blocks_left_by_commit')
 ASSUMPTIONS = ('maxlen None is reported by Deque as inf (declared normalisation)',
                'comparison operands are deque-typed on both sides; non-int indices are not generated',
                'reopening with a smaller maxlen is not generated (the statement does not fix it)')
@@ -97,9 +98,47 @@ def history(dc, sc, res, rng, label):
             idx = rng.randrange(-ln - 2, ln + 3)
             op = gen.pick(rng, ['append', 'append', 'appendleft', 'extend', 'extendleft', 'pop', 'popleft', 'peek',
                                 'peekleft', 'getitem', 'getitem', 'setitem', 'delitem', 'rotate', 'reverse', 'remove',
-                                'count', 'compare', 'clear', 'maxlen', 'iadd', 'len', 'EVENT', 'contains'])
+                                'count', 'compare', 'clear', 'maxlen', 'iadd', 'len', 'EVENT', 'contains', 'block'])
             args = ()
-            if op in ('append', 'appendleft'):
+            if op == 'block':
+                # a transact() block of a few appends / pops that completes or is left by an exception (ordinary,
+                # KeyboardInterrupt, SystemExit, GeneratorExit in a generator suspended inside the block)
+                how = gen.pick(rng, ['commit', 'RuntimeError', 'KeyboardInterrupt', 'SystemExit', 'GeneratorExit'])
+                muts = [(gen.pick(rng, ['append', 'appendleft', 'pop', 'popleft']), val()) for _ in range(rng.randrange(1, 4))]
+                args = (how, muts)
+                saved = collections.deque(R, maxlen=R.maxlen)
+
+                def body(Q):
+                    for what, vv in muts:
+                        if what in ('append', 'appendleft'):
+                            getattr(Q, what)(vv)
+                        elif len(Q):
+                            getattr(Q, what)()
+
+                def scan():
+                    with D.transact():
+                        body(D)
+                        yield 'suspended inside the block'
+                exc_types = {'RuntimeError': RuntimeError, 'KeyboardInterrupt': KeyboardInterrupt, 'SystemExit': SystemExit}
+                try:
+                    if how == 'GeneratorExit':
+                        g = scan()
+                        next(g)
+                        g.close()
+                    else:
+                        with D.transact():
+                            body(D)
+                            if how != 'commit':
+                                raise exc_types[how]()
+                except (RuntimeError, KeyboardInterrupt, SystemExit):
+                    pass
+                if how == 'commit':
+                    body(R)
+                else:
+                    R = saved
+                res.count('blocks_left_by_' + how)
+                got = exp = ('ok', None)
+            elif op in ('append', 'appendleft'):
                 v = val()
                 args = (v,)
                 got, exp = outcome(lambda: getattr(D, op)(v)), outcome(lambda: getattr(R, op)(v))
